@@ -879,6 +879,7 @@ fn boundary_values(orig: i32, img: &Image) -> Vec<i32> {
         }
     }
     v.push(0x10000);
+    v.push(0x10001);
     v.push(0xffff);
     v.sort();
     v.dedup();
@@ -906,6 +907,10 @@ fn gen_bases(rng: &mut Rng, n: usize, max_items: u64, max_len: u64) -> Vec<(Imag
         let mut datas = rand_datas(rng, 3, max_len);
         if k < 2 && datas.is_empty() {
             datas = vec![b"hello\0".to_vec(), vec![], vec![9; 20]];
+        }
+        if k == 2 || k == 3 {
+            // a file whose only type is 0 (the type id that 0x10000 aliases as u16)
+            items = vec![Item { type_id: 0, id: 0, data: vec![1] }, Item { type_id: 0, id: 1, data: vec![] }];
         }
         let comp = *rng.pick(&[Comp::Stored, Comp::Fixed, Comp::Zlib]);
         let img = Image::build(version, &items, &datas, &|_, d| compress(comp, d));
@@ -966,6 +971,106 @@ fn gen_field_corruptions(out: &mut dyn Write, img: &Image, rng: &mut Rng, dense:
                 let mut m = img.clone();
                 m.types[i][f] = v;
                 emit(out, format!("open {}", to_hex(&m.serialize())));
+            }
+        }
+    }
+    // every field that `check` compares against a limit: the exact limit and limit +-1, in a
+    // context in which the rest of the file still passes (always emitted, never sampled)
+    {
+        let le = |out: &mut dyn Write, m: &Image| emit(out, format!("open {}", to_hex(&m.serialize())));
+        // an empty type entry inserted at every position, with type ids around both ends of the
+        // id range and around its neighbours
+        for pos in 0..=img.types.len() {
+            let start = if pos < img.types.len() { img.types[pos][1] } else { img.num_items };
+            let mut ids = vec![-1, 0, 1, 0xfffe, 0xffff, 0x10000, 0x10001, 0x1ffff, 0x20000, i32::MAX, i32::MIN];
+            if pos > 0 {
+                let p = img.types[pos - 1][0];
+                ids.extend_from_slice(&[p - 1, p, p + 1]);
+            }
+            if pos < img.types.len() {
+                let n = img.types[pos][0];
+                ids.extend_from_slice(&[n - 1, n, n + 1]);
+            }
+            for id in ids {
+                for num in [0, -1] {
+                    let mut m = img.clone();
+                    m.types.insert(pos, [id, start, num]);
+                    m.fix_header();
+                    le(out, &m);
+                }
+            }
+        }
+        for i in 0..img.types.len() {
+            let [tid, start, num] = img.types[i];
+            // type ids that agree with the items' type id modulo 2^16, and the neighbours' ids
+            let mut ids = vec![tid.wrapping_add(0x10000), tid.wrapping_sub(0x10000), tid | 0x10000, tid.wrapping_add(0x20000), 0x10000, 0x10001, 0xffff];
+            if i > 0 {
+                let p = img.types[i - 1][0];
+                ids.extend_from_slice(&[p - 1, p, p + 1]);
+            }
+            if i + 1 < img.types.len() {
+                let n = img.types[i + 1][0];
+                ids.extend_from_slice(&[n - 1, n, n + 1]);
+            }
+            for id in ids {
+                let mut m = img.clone();
+                m.types[i][0] = id;
+                le(out, &m);
+            }
+            // num against num_items - start, start against the expected start
+            for d in [-1, 0, 1] {
+                let mut m = img.clone();
+                m.types[i][2] = (img.num_items - start).wrapping_add(d);
+                le(out, &m);
+                let mut m = img.clone();
+                m.types[i][1] = (start + num).wrapping_add(d);
+                le(out, &m);
+            }
+        }
+        // item sizes against the end of the item area, offsets against their neighbours
+        for i in 0..img.items.len() {
+            let remaining = img.size_items - img.item_offsets[i] - 8;
+            for d in [-8, -4, -1, 0, 1, 4, 8] {
+                let mut m = img.clone();
+                m.items[i].1 = remaining.wrapping_add(d);
+                le(out, &m);
+            }
+            for d in [-8, -4, 0, 4, 8] {
+                let mut m = img.clone();
+                m.item_offsets[i] = (img.size_items).wrapping_add(d);
+                le(out, &m);
+            }
+        }
+        // data offsets against their neighbours and the end of the data section
+        for i in 0..img.data_offsets.len() {
+            let mut vals = vec![img.size_data - 1, img.size_data, img.size_data + 1];
+            if i > 0 {
+                let p = img.data_offsets[i - 1];
+                vals.extend_from_slice(&[p - 1, p, p + 1]);
+            }
+            if i + 1 < img.data_offsets.len() {
+                let n = img.data_offsets[i + 1];
+                vals.extend_from_slice(&[n - 1, n, n + 1]);
+            }
+            for v in vals {
+                let mut m = img.clone();
+                m.data_offsets[i] = v;
+                le(out, &m);
+            }
+        }
+        // the 2 GiB rule: each count/size set so that the total is exactly i32::MAX - 1, i32::MAX,
+        // i32::MAX + 1 (size/swaplen recomputed)
+        let total: i64 = img.serialize().len() as i64;
+        for (k, unit) in [(3usize, 12i64), (4, 4), (5, if img.version >= 4 { 8 } else { 4 }), (6, 1), (7, 1)] {
+            let orig = img.header_words()[k] as i64;
+            for target in [i32::MAX as i64 - 1, i32::MAX as i64, i32::MAX as i64 + 1] {
+                let v = orig + (target - total) / unit;
+                for d in [-1i64, 0, 1] {
+                    let mut m = img.clone();
+                    m.set_header_word(k, (v + d) as i32);
+                    m.fix_size();
+                    le(out, &m);
+                }
             }
         }
     }
